@@ -38,6 +38,9 @@ FAULTS = [
     [("data", ["hello:01"])], [("data", ["hello:10"])], [("data", ["hello:11", "connect:1"])],
     [("data", ["discresp", "other"])], [("data", ["pingreq"])],
     [("setWrite", 0)], [("setWrite", 0), ("data", ["pingreq"])], [("setWrite", 0), ("data", ["discreq"])],
+    # a local close whose own DisconnectRequest cannot be written any more
+    [("setWrite", 0), ("force",)], [("setWrite", 0), ("callDisc",), S, S], [("setWrite", 0), ("force",), ("force",)],
+    [("setWrite", 0), ("timer", "ping"), S, ("timer", "ping"), S],
     [("timer", "resolve"), S], [("timer", "tcp"), S], [("timer", "hs"), S], [("timer", "hello"), S],
     [("timer", "ping"), S], [("timer", "pong"), S], [("timer", "discwait"), S], [("timer", "discresp"), S],
     [("resolved", 0)], [("sockDone", 0)], [S], [S, S],
@@ -54,6 +57,11 @@ FAULTS = [
     [("callDisc",), S, ("cancel", "disc"), S, ("eof",)], [("callDisc",), S, ("cancel", "disc"), S, ("reset",), S],
     [("callDisc",), ("cancel", "disc"), S, ("setWrite", 0), ("data", ["pingreq"])],
     [("callDisc",), S, ("cancel", "disc"), S, ("timer", "ping"), S, ("timer", "ping"), S, ("timer", "pong"), S],
+    # a disconnect() that gave up waiting for the connect to finish (its 5 s wait records a timeout as the fatal cause
+    # WITHOUT closing), then a second cause: that one must still close the connection
+    [("callDisc",), S, ("timer", "discwait"), S, ("eof",), S], [("callDisc",), S, ("timer", "discwait"), S, ("reset",), S, S],
+    [("callDisc",), S, ("timer", "discwait"), S, ("data", ["garbage"]), S], [("callDisc",), ("timer", "discwait"), S, S, ("eof",)],
+    [("callDisc",), S, ("timer", "discwait"), S, ("setWrite", 0), ("data", ["pingreq"]), S],
 ]
 
 
@@ -283,6 +291,10 @@ def spec_c08(obs, lines, final_quiescent=True):
                 if int(d["deliv"]) - int(prev["deliv"]) > bound:
                     return "delivery-after-closing-frame", i
         prev = d
+        # "for any cause or combination of causes": the end of the stream or the loss of the transport closes the connection,
+        # whatever was recorded before
+        if l in ("cn.ev eof", "cn.ev lost") and d["st"] != "closed":
+            return "not-closed-after-" + l.split(" ")[-1], i
         if d["disc"] == "done" and d["st"] != "closed":
             # disconnect() is a close cause at any point of the life: once it has returned the connection is closed
             return "not-closed-after-disconnect", i
